@@ -244,6 +244,16 @@ class Effects:
                     val = origins(st.value, env)
                     for t in st.targets:
                         for tt in (t.elts if isinstance(t, (ast.Tuple, ast.List)) else [t]):
+                            if isinstance(tt, (ast.Attribute, ast.Subscript)):
+                                # a local object stored in (or inside a display stored in) a field / a table of the receiver is from now on
+                                # reachable from the receiver as well: returning the local afterwards hands out shared storage
+                                base = tt if isinstance(tt, ast.Attribute) else tt.value
+                                where_to = {o for o in origins(base, env) if isinstance(o, str) and o.startswith("self.")} if isinstance(base, ast.Attribute) else set()
+                                if where_to:
+                                    stored = [st.value] + (list(st.value.elts) if isinstance(st.value, (ast.Tuple, ast.List)) else [])
+                                    for sv in stored:
+                                        if isinstance(sv, ast.Name) and sv.id in env and sv.id != selfname and any(o == "fresh" for o in env[sv.id]):
+                                            env[sv.id] = set(env[sv.id]) | where_to
                             if isinstance(tt, ast.Attribute):
                                 record_mut(origins(tt.value, env), f.loc(st), attr=tt.attr, kind="rebind")
                             elif isinstance(tt, ast.Subscript):
